@@ -16,6 +16,10 @@ import (
 	"github.com/jech/storrent/peer"
 	"github.com/jech/storrent/protocol"
 	"github.com/jech/storrent/tor"
+	"github.com/jech/storrent/tor/piece"
+
+	"verifharness/internal/content"
+	"verifharness/internal/mktor"
 )
 
 type remoteConn struct {
@@ -342,4 +346,99 @@ type failConn struct{ net.Conn }
 
 func (c failConn) Write(p []byte) (int, error) {
 	return 0, errors.New("write: connection reset by peer")
+}
+
+// runKillHashing: Kill while a piece is being hashed.  Lifecycle.tla: the loop
+// closes Done, then releases the store (which waits for the piece that is
+// busy), then unlists the torrent and closes Deleted; Kill returns after
+// Deleted - so when it returns the torrent is unlisted and its memory is back.
+func runKillHashing(sc *Scenario, out *Out) {
+	viol := func(key, what string) {
+		out.Violations = append(out.Violations, Viol{"C17", key, what, 0})
+	}
+	if alloc.Bytes() != 0 {
+		out.Note = fmt.Sprintf("%d bytes allocated before the scenario", alloc.Bytes())
+		return
+	}
+	const ps = 32768
+	seed := uint64(sc.ID) + 41
+	t, err := mktor.New(mktor.Spec{Name: fmt.Sprintf("kh-%d", sc.ID), PieceLen: ps, Length: 4 * ps, Seed: seed}, "")
+	if err != nil {
+		out.Note = err.Error()
+		return
+	}
+	ctx, cancel := context.WithCancel(context.Background())
+	defer cancel()
+	t, err = tor.AddTorrent(ctx, t)
+	if err != nil {
+		out.Note = err.Error()
+		return
+	}
+	for b := 0; b < ps; b += 16384 {
+		t.Pieces.AddData(0, uint32(b), content.Range(seed, int64(b), 16384), 1)
+	}
+	t.Pieces.AddData(2, 0, content.Range(seed, 2*ps, 16384), 1)
+	hashing, release := make(chan struct{}, 1), make(chan struct{})
+	piece.VerifYield = func(point string, index uint32) {
+		if point == "Finalise.hash" {
+			hashing <- struct{}{}
+			<-release
+		}
+	}
+	defer func() { piece.VerifYield = nil }()
+	fin := make(chan struct{})
+	go func() {
+		t.Pieces.Finalise(0, t.PieceHashes[0])
+		close(fin)
+	}()
+	select {
+	case <-hashing:
+	case <-time.After(5 * time.Second):
+		out.Note = "Finalise did not reach its hashing step"
+		close(release)
+		return
+	}
+	killed := make(chan error, 1)
+	go func() {
+		k, c2 := context.WithTimeout(context.Background(), 20*time.Second)
+		defer c2()
+		killed <- t.Kill(k)
+	}()
+	check := func(when string) {
+		if tor.Get(t.Hash) != nil {
+			viol("kill-returns-before-release", "Kill has returned "+when+" and the torrent is still listed")
+		}
+		if a := alloc.Bytes(); a != 0 {
+			viol("kill-returns-before-release", fmt.Sprintf("Kill has returned %s and %d bytes of piece memory are still allocated", when, a))
+		}
+	}
+	returned := false
+	select {
+	case err := <-killed:
+		returned = true
+		if err == nil {
+			check("while a piece was still being hashed")
+		}
+	case <-time.After(400 * time.Millisecond):
+	}
+	close(release)
+	if !returned {
+		select {
+		case err := <-killed:
+			if err != nil {
+				viol("call-error:Kill", fmt.Sprintf("Kill returned %v", err))
+			} else {
+				check("after the hashing ended")
+			}
+		case <-time.After(10 * time.Second):
+			viol("call-hang:Kill", "Kill did not return within 10 s of the end of the hashing")
+		}
+	}
+	select {
+	case <-fin:
+	case <-time.After(5 * time.Second):
+	}
+	for n := 0; n < 500 && alloc.Bytes() != 0; n++ {
+		time.Sleep(5 * time.Millisecond)
+	}
 }
